@@ -53,7 +53,8 @@ func number(n *anode, next *int, root bool) {
 	}
 }
 
-func (n anode) build(forms []int) any {
+func (n anode) build(forms []int, hist ...bool) any {
+	h := len(hist) > 0 && hist[0]
 	switch n.T {
 	case "leaf":
 		return n.V
@@ -63,7 +64,7 @@ func (n anode) build(forms []int) any {
 		s := newStackKind(n.K)
 		var vals []any
 		for _, k := range n.Kids {
-			vals = append(vals, k.build(forms))
+			vals = append(vals, k.build(forms, h))
 		}
 		fill(s, vals, fillMode(n.String()))
 		f := "native"
@@ -86,7 +87,13 @@ func (n anode) build(forms []int) any {
 		}
 		return s
 	case "C":
-		c := stackage.Cond(n.Kw, stackage.Ge, n.Kids[0].build(forms))
+		var c stackage.Condition
+		if h {
+			// the tree under test is assembled through a history; the native reference directly
+			c = condHistory(n.Kw, stackage.Ge, n.Kids[0].build(forms, h), fillMode(n.String()+fmt.Sprint(forms)))
+		} else {
+			c = stackage.Cond(n.Kw, stackage.Ge, n.Kids[0].build(forms))
+		}
 		f := condForms[forms[n.Pos-1]%len(condForms)]
 		switch f {
 		case "alias":
@@ -206,7 +213,10 @@ func c12Run(c *Ctx, cs c12Case, count bool) {
 		c.Traces.Add(1)
 	}
 	var ar, nr stackage.Stack
-	if p := noPanic(func() { ar = cs.Tree.build(cs.Forms).(stackage.Stack); nr = cs.Tree.build(native).(stackage.Stack) }); p != "" {
+	if p := noPanic(func() {
+		ar = cs.Tree.build(cs.Forms, true).(stackage.Stack)
+		nr = cs.Tree.build(native).(stackage.Stack)
+	}); p != "" {
 		c.Violation(key("panic:build"), desc+": building (Push / Cond with alias values) panicked: "+p, cs, size)
 		return
 	}
